@@ -56,6 +56,10 @@ pub struct Stitch {
     subtree: Apath,
 
     monitor: Arc<dyn Monitor>,
+
+    /// End the listing at the first band that can't be read completely, rather than carrying on
+    /// with older bands.
+    stop_at_unreadable_band: bool,
 }
 
 /// What state is a stitch iter in, and what should happen next?
@@ -108,6 +112,21 @@ impl Stitch {
             exclude,
             subtree,
             monitor,
+            stop_at_unreadable_band: false,
+        }
+    }
+
+    /// End the listing at the first band whose head, index listing or any index hunk can't be
+    /// read, instead of carrying on with older bands.
+    ///
+    /// This is for a listing that serves as the basis of a backup. There, entries of an older
+    /// band presented for paths that the unreadable part of a newer band covers would let
+    /// files pass as unchanged since a version they have changed since; leaving them out only
+    /// makes the backup look at those files again.
+    pub(crate) fn stop_at_unreadable_band(self) -> Stitch {
+        Stitch {
+            stop_at_unreadable_band: true,
+            ..self
         }
     }
 
@@ -120,6 +139,7 @@ impl Stitch {
             exclude: Exclude::nothing(),
             subtree: Apath::root(),
             monitor,
+            stop_at_unreadable_band: false,
         }
     }
 
@@ -163,10 +183,14 @@ impl Stitch {
                         continue;
                     } else {
                         // Hunks that are missing or unreadable were skipped: say so.
-                        for err in index_hunks.take_errors() {
+                        let errors = index_hunks.take_errors();
+                        let any_unreadable = !errors.is_empty();
+                        for err in errors {
                             self.monitor.error(err);
                         }
-                        if index_hunks.listing_failed() {
+                        if index_hunks.listing_failed()
+                            || (any_unreadable && self.stop_at_unreadable_band)
+                        {
                             // Nothing is known about how far this band's index goes, so there
                             // is no point from which an older band could safely take over.
                             State::Done
@@ -190,8 +214,19 @@ impl Stitch {
                             }
                         }
                         Err(err) => {
+                            // A head that is absent or does not parse is what a backup killed
+                            // while creating its band leaves: nothing was recorded there. Any
+                            // other failure says nothing about what the band holds.
+                            let nothing_recorded = matches!(
+                                err,
+                                Error::BandHeadMissing { .. } | Error::DeserializeJson { .. }
+                            );
                             self.monitor.error(err);
-                            State::AfterBand(*band_id, None)
+                            if self.stop_at_unreadable_band && !nothing_recorded {
+                                State::Done
+                            } else {
+                                State::AfterBand(*band_id, None)
+                            }
                         }
                     }
                 }
